@@ -51,11 +51,11 @@ Theorem C09_model {T} {O : Ops T} {RL : RingLaws T} {FL : FieldLaws T}
     (sc : @scene T) tm b rho (pA pB : @point_data T) K t :
   wf_scene sc -> s_nd sc = 1 -> (forall w a d, beta sc w a d b = rho w) -> b < s_nb sc ->
   (forall i, i < s_np sc -> area sc i <> 0%T) ->
-  linked sc tm b pA -> linked sc tm b pB -> fits sc tm b pA pB K -> fits sc tm b pB pA K ->
+  linked sc tm pA -> linked sc tm pB -> fits sc tm b K pA pB -> fits sc tm b K pB pA ->
   t < n_samples tm ->
   get2 (mono sc tm (patch_hist sc tm (as_source pA) K) (as_source pA) (as_receiver pB) false None) b t =
   get2 (mono sc tm (patch_hist sc tm (as_source pB) K) (as_source pB) (as_receiver pA) false None) b t.
 Proof.
-  intros WF Hnd Hd Hb Ha. exact (mono_reciprocal sc tm b WF Hnd rho Hd Hb Ha pA pB K t).
+  intros WF Hnd Hd Hb Ha. exact (mono_reciprocal sc tm b WF Ha Hnd rho Hd Hb pA pB K t).
 Qed.
 Print Assumptions C09_model.
